@@ -18,13 +18,14 @@ pub struct Family {
     pub run: fn(&mut Case, &mut Rng),
 }
 
-fn run_case(n: usize, fam: &Family, seed: u64, out: &mut impl Write) {
+fn run_case(n: usize, idx: usize, fam: &Family, seed: u64, out: &mut impl Write) {
     let mut rng = Rng::new(seed);
     let cfg = (fam.cfg)(&mut rng);
     log(format!("CASE {n} family={} seed={seed}", fam.name));
     set_capture(true);
     let r = catch_unwind(AssertUnwindSafe(|| {
         let mut case = Case::new(cfg);
+        case.idx = idx;
         (fam.run)(&mut case, &mut rng);
     }));
     set_capture(false);
@@ -128,9 +129,9 @@ fn main() {
     // exhaustive families first (they ignore the case budget), then random ones
     for fam in fams.iter() {
         let quota = (total / fams.len()).max(1);
-        for _ in 0..quota {
+        for k in 0..quota {
             let s = master.next();
-            run_case(n, fam, s, &mut out);
+            run_case(n, k, fam, s, &mut out);
             *hist.entry(fam.name).or_default() += 1;
             n += 1;
         }
